@@ -31,6 +31,8 @@ STRUCTS = {"struct P1": ("struct P1 { long x; };", "{%ld}", "{0}.x", ["(struct P
            "struct ID": ("struct ID { long x; double y; };", "{%ld,%g}", "{0}.x, {0}.y", ["(struct ID) {31, 4.5}"]),
            "struct DI": ("struct DI { double x; long y; };", "{%g,%ld}", "{0}.x, {0}.y", ["(struct DI) {5.5, 41}"]),
            "struct FF": ("struct FF { float x, y; int z; };", "{%g,%g,%d}", "{0}.x, {0}.y, {0}.z", ["(struct FF) {1.25f, 2.25f, 9}"]),
+           "struct IF": ("struct IF { int x; float y; };", "{%d,%g}", "{0}.x, {0}.y", ["(struct IF) {55, 6.0f}"]),
+           "struct CFD": ("struct CFD { char x; float y; double z; };", "{%d,%g,%g}", "{0}.x, {0}.y, {0}.z", ["(struct CFD) {7, 1.5f, 2.5}"]),
            "struct M3": ("struct M3 { long x, y, z; };", "{%ld,%ld,%ld}", "{0}.x, {0}.y, {0}.z", ["(struct M3) {51, 52, 53}"])}
 for _k, _v in STRUCTS.items():
     TYPES.append((_k, None, None))
